@@ -548,6 +548,16 @@ class Engine:
                 raise Unsupported("loop over %r" % (it,))
         yield from self.ev(s.iter, st, k)
 
+    def _inv(self, inv, key, i, st):
+        """value of a contract's loop invariant; an invariant that cannot even be evaluated on this version of the function (it was written
+        for another shape of the loop, or names a local that is gone) makes the contract inapplicable - not a verdict on the code"""
+        try:
+            return inv(i, st)
+        except Unsupported:
+            raise
+        except Exception as e:
+            raise Unsupported("the invariant given for loop %s#%d cannot be evaluated on this version of the function (%s: %s)" % (key[0], key[1], type(e).__name__, e))
+
     def unroll(self, s, items, st):
         if not items:
             yield ("fall", None, st)
@@ -580,7 +590,7 @@ class Engine:
             yield from self.live_loop(s, lst, enum, spec, key, st)
             return
         inv = spec["inv"]
-        self.obl.append(("%s#loop%d:init" % key, st, inv(z3.IntVal(0), st)))
+        self.obl.append(("%s#loop%d:init" % key, st, self._inv(inv, key, z3.IntVal(0), st)))
         i = fresh("i", I)
         st1 = st
         for name, mk in spec.get("mod", {}).items():
@@ -589,7 +599,7 @@ class Engine:
         for f in spec.get("modheap", ()):
             zh[f] = fresh("H_" + f, zh[f].sort())
         st1 = st1.with_zh(zh)
-        head = st1.assume(0 <= i, inv(i, st1))
+        head = st1.assume(0 <= i, self._inv(inv, key, i, st1))
         body_st = head.assume(i < lst.n)
         elem = lst.mk(lst.el[i])
         tgtval = (i, elem) if enum else elem
@@ -597,7 +607,7 @@ class Engine:
             for kind, val, st2 in self.assign(s.target, tgtval, body_st):
                 for kind2, val2, st3 in self.block(s.body, st2):
                     if kind2 in ("fall", "continue"):
-                        self.obl.append(("%s#loop%d:preserved" % key, st3, inv(i + 1, st3)))
+                        self.obl.append(("%s#loop%d:preserved" % key, st3, self._inv(inv, key, i + 1, st3)))
                     elif kind2 == "break":
                         yield ("fall", None, st3)              # the loop is left with the state at the break
                     else:
@@ -609,7 +619,7 @@ class Engine:
         the cursor reaches the CURRENT length; the list may be written by the body.  Heap fields named in modheap are havocked at the
         loop head and constrained by the invariant only."""
         inv = spec["inv"]
-        self.obl.append(("%s#loop%d:init" % key, st, inv(z3.IntVal(0), st)))
+        self.obl.append(("%s#loop%d:init" % key, st, self._inv(inv, key, z3.IntVal(0), st)))
         i = fresh("i", I)
         st1 = st
         for name, mk in spec.get("mod", {}).items():
@@ -618,7 +628,7 @@ class Engine:
         for f in spec.get("modheap", ()):
             zh[f] = fresh("H_" + f, zh[f].sort())
         st1 = st1.with_zh(zh)
-        head = st1.assume(0 <= i, inv(i, st1))
+        head = st1.assume(0 <= i, self._inv(inv, key, i, st1))
         n_cur = head.zh["L_n"][lref.id]
         body_st = head.assume(i < n_cur)
         elem = lref.mk(head.zh["L_e"][lref.id][i])
@@ -627,7 +637,7 @@ class Engine:
             for kind, val, st2 in self.assign(s.target, tgtval, body_st):
                 for kind2, val2, st3 in self.block(s.body, st2):
                     if kind2 in ("fall", "continue"):
-                        self.obl.append(("%s#loop%d:preserved" % key, st3, inv(i + 1, st3)))
+                        self.obl.append(("%s#loop%d:preserved" % key, st3, self._inv(inv, key, i + 1, st3)))
                     elif kind2 == "break":
                         yield ("fall", None, st3)              # the loop is left with the state at the break
                     else:
@@ -646,7 +656,7 @@ class Engine:
         if spec is None:
             raise Unsupported("loop %s#%d needs an invariant" % key)
         inv = spec["inv"]
-        self.obl.append(("%s#loop%d:init" % key, st, inv(None, st)))
+        self.obl.append(("%s#loop%d:init" % key, st, self._inv(inv, key, None, st)))
         st1 = st
         for name, mk in spec.get("mod", {}).items():
             st1 = st1.bind(name, mk(name))
@@ -654,7 +664,7 @@ class Engine:
         for f in spec.get("modheap", ()):
             zh[f] = fresh("H_" + f, zh[f].sort())
         st1 = st1.with_zh(zh)
-        head = st1.assume(inv(None, st1))
+        head = st1.assume(self._inv(inv, key, None, st1))
         def k(c, st2):
             c = self.truth(c)
             if isinstance(c, bool):
@@ -662,7 +672,7 @@ class Engine:
             if self.feasible(st2, c):
                 for kind2, val2, st3 in self.block(s.body, st2.assume(c)):
                     if kind2 in ("fall", "continue"):
-                        self.obl.append(("%s#loop%d:preserved" % key, st3, inv(None, st3)))
+                        self.obl.append(("%s#loop%d:preserved" % key, st3, self._inv(inv, key, None, st3)))
                     elif kind2 == "break":
                         yield ("fall", None, st3)
                     else:
